@@ -369,7 +369,7 @@ def h_stack(n: int, k0: int, b0: int, k1: int, b1: int, k2: int, b2: int, block_
 
 
 # ---- histories: every registered exit runs exactly once overall -------------------------------
-OPS = ("register", "aclose", "pop_all", "with-block", "aclose-popped", "with-block-raising")
+OPS = ("register", "aclose", "pop_all", "with-block", "aclose-popped", "with-block-raising", "register-raising-exit", "aclose-inside-except")
 
 
 def _pre_hist(o0, o1, o2, o3, o4, o5):
@@ -380,6 +380,8 @@ def _pre_hist(o0, o1, o2, o3, o4, o5):
             ok = ok and 0 <= o < len(OPS)
         else:
             ok = ok and o == 0
+    if P("o0") is not None:
+        ok = ok and o0 == P("o0")
     return ok
 
 
@@ -411,13 +413,29 @@ def h_hist(o0: int, o1: int, o2: int, o3: int, o4: int, o5: int):
             trace.append(OPS[op])
             before = len([e for e in log if e[0] == "exit"])
             expect = []
-            if op == 0:
-                e = Entry(nreg, kinds[nreg % len(kinds)], 0, log)
+            if op == 0 or op == 6:
+                e = Entry(nreg, kinds[nreg % len(kinds)], 2 if op == 6 else 0, log)
                 D.run(reg_async(stack, e))
                 model_cur.append(nreg)
                 nreg += 1
-            elif op == 1:
-                D.run(stack.aclose())
+            elif op == 1 or op == 7:
+                n0 = len(log)
+                if op == 7:
+
+                    async def closing_in_handler():
+                        try:
+                            raise KeyError("unrelated, being handled by the caller")
+                        except KeyError:
+                            await stack.aclose()
+
+                    D.call(closing_in_handler())
+                else:
+                    D.call(stack.aclose())
+                for ev in log[n0:]:
+                    # aclose() unwinds without an exception: the first exit sees none (later
+                    # ones only what an earlier exit raised)
+                    if ev[0] == "exit" and ev[2] not in (None, "-") and not str(ev[2]).startswith("new-"):
+                        ok = fail("ExitStack:aclose-passed-a-foreign-exception-to-an-exit", (trace, ev)) and ok
                 expect, model_cur = list(reversed(model_cur)), []
             elif op == 2:
                 popped.append(stack.pop_all())
@@ -433,11 +451,11 @@ def h_hist(o0: int, o1: int, o2: int, o3: int, o4: int, o5: int):
                     except BlockExc:
                         pass
 
-                D.run(blk(op == 5))
+                D.call(blk(op == 5))
                 expect, model_cur = list(reversed(model_cur)), []
             else:
                 if popped:
-                    D.run(popped[-1].aclose())
+                    D.call(popped[-1].aclose())
                     expect = list(reversed(model_popped[-1]))
                     model_popped[-1] = []
             ran = [e[1] for e in log if e[0] == "exit"][before:]
@@ -445,9 +463,9 @@ def h_hist(o0: int, o1: int, o2: int, o3: int, o4: int, o5: int):
                 ok = fail("ExitStack:history-exits-wrong(%s)" % OPS[op], (trace, ran, expect)) and ok
                 break
         # finally everything is closed: each registered exit ran exactly once overall
-        D.run(stack.aclose())
+        D.call(stack.aclose())
         for p in popped:
-            D.run(p.aclose())
+            D.call(p.aclose())
         runs = {}
         for e in log:
             if e[0] == "exit":
@@ -479,7 +497,7 @@ def _grid_stack():
 
 GRID = {
     "h_stack": _grid_stack,
-    "h_hist": lambda: [tuple([a, b, c, d, 0, 0][: 6]) for a in range(6) for b in range(6) for c in range(6) for d in (0, 1, 4)] if P("L", 4) >= 4 else [(a, b, c, 0, 0, 0) for a in range(6) for b in range(6) for c in range(6)],
+    "h_hist": lambda: [tuple([a, b, c, d, 0, 0][: 6]) for a in range(8) for b in range(8) for c in range(8) for d in (0, 1, 4, 7) if P("o0") in (None, a)] if P("L", 4) >= 4 else [(a, b, c, 0, 0, 0) for a in range(8) for b in range(8) for c in range(8)],
 }
 
 
@@ -501,14 +519,15 @@ def jobs(tier):
         for k0 in range(NK):
             for k1 in range(NK):
                 add("h_stack", N=3, fix={"n": 3, "k0": k0, "k1": k1})
-    add("h_hist", L=(4 if q else 6))
+    for o0 in range(len(OPS)):
+        add("h_hist", L=(4 if q else 5), o0=o0)
     return J
 
 
 LEVEL = "other"
 BOUNDS = {
-    "quick": "stacks of 0..2 entries, each {entered async CM, entered sync CM, pushed async fn, pushed sync fn, sync callback with args, async callback with args, pushed (not entered) async CM, pushed sync CM, pushed callable object returning a coroutine, pushed partial(async def), callback object returning a coroutine, pushed function returning a non-coroutine awaitable, callback with keyword arguments only} x {falsy, truthy, raise new, raise new only when an exception is in flight, raise a new BaseException}, block normal/raising, one entry whose enter fails; oracles: contextlib.AsyncExitStack and recursively built nested async-with; histories of 4 operations over {register, aclose, pop_all, with-block, with-block raising, aclose popped stack} followed by closing everything",
-    "thorough": "stacks of 3 entries, histories of 6 operations",
+    "quick": "stacks of 0..2 entries, each {entered async CM, entered sync CM, pushed async fn, pushed sync fn, sync callback with args, async callback with args, pushed (not entered) async CM, pushed sync CM, pushed callable object returning a coroutine, pushed partial(async def), callback object returning a coroutine, pushed function returning a non-coroutine awaitable, callback with keyword arguments only} x {falsy, truthy, raise new, raise new only when an exception is in flight, raise a new BaseException}, block normal/raising, one entry whose enter fails; oracles: contextlib.AsyncExitStack and recursively built nested async-with; histories of 4 operations over {register, register an exit that raises, aclose, aclose from inside an except block, pop_all, with-block, with-block raising, aclose popped stack} followed by closing everything",
+    "thorough": "stacks of 3 entries, histories of 5 operations",
 }
 OUTSIDE = ["__context__/__cause__ chains", "4 entries", "exits that suspend (covered by C17/C18)"]
 NONTRIVIAL_RULE = ">=2 entries on the stack (histories: >=1 registration and >=2 operations)"
